@@ -325,9 +325,25 @@ def check(ctx: Ctx) -> None:
 
 def shipped_rule(ctx: Ctx, rule_id: str, kinds) -> None:
     """The shipped dictionary based evaluators / providers / resolvers answer with the entry of the very key asked for."""
-    from ..fdvalues import Opaque
+    from ..fdvalues import ClassVal, FuncVal, Opaque
 
     model = ctx.model
+    if "rc" in kinds or "fc" in kinds:
+        # the method registry of Evaluator.__init__: exactly the methods named evaluate_<digits>, each under its own key
+        def registry(ch):
+            it = Interp(model, ch)
+            ev = it.construct(ClassVal("ahbicht._vstat_stub.StubMethodRcEvaluator"), [], {}, None, None)
+            reg = ev.fields.get("_evaluation_methods")
+            if not isinstance(reg, dict):
+                return ("no-registry", repr(reg))
+            return ("ret", tuple(sorted((k, getattr(getattr(v, "fn", None), "name", repr(v))) for k, v in reg.items())))
+
+        outs = sorted({o for _t, o in explore(registry)}, key=repr)
+        ctx.count()
+        want = [("ret", (("7", "evaluate_7"), ("77", "evaluate_77")))]
+        ctx.ob(rule_id, "Evaluator::method-registry", outs == want,
+               f"Evaluator.__init__ registers {outs} for a custom evaluator with evaluate_7, evaluate_77, evaluate_7_legacy, evaluate_all, re_evaluate_7; "
+               "exactly evaluate_7 -> '7' and evaluate_77 -> '77' must be found", file="src/ahbicht/content_evaluation/evaluators.py", function="Evaluator.__init__")
     NODES = "ahbicht.models.condition_nodes"
     # ---- C12.shipped: the dictionary based evaluators / providers / resolvers answer with the entry of the very key asked for
     shipped = [
